@@ -439,8 +439,8 @@ func (b *Builder) PtrBytes(t types.Type) uintptr {
 		for i := 0; i < n; i++ {
 			f := t.Field(i)
 			fields[i] = f
-			if bytes = b.PtrBytes(f.Type()); bytes != 0 {
-				field = i
+			if pb := b.PtrBytes(f.Type()); pb != 0 {
+				field, bytes = i, pb
 			}
 		}
 		if field == -1 {
